@@ -377,6 +377,15 @@ def execute(spec):
                                 if got[key] != allv[var.index]:
                                     V("get_values_wrong_column", {"var": vars_[key[1]]["name"]}, i)
                                     break
+                        # the older name-based getter: exactly the variables created under one prefix
+                        xs = [v for v, d in enumerate(vars_) if d["name"] == "x"]
+                        import warnings as _w
+                        with _w.catch_warnings():
+                            _w.simplefilter("ignore")
+                            byname = wr.get_variable_values("x", [int])
+                        exp_byname = {kk: allv[hv[v].index] for kk, v in enumerate(xs)}
+                        if byname != exp_byname:
+                            V("get_variable_values_by_prefix", {"got": str(byname)[:200], "expected": str(exp_byname)[:200]}, i)
                         bins = {v: hv[v] for v in op["vars"] if vars_[v]["type"] == "integer" and bounds[v][1] <= 1 and bounds[v][0] >= 0}
                         if bins:
                             gb = wr.get_values(bins, binary_values=True)
